@@ -81,6 +81,31 @@ HISTORY = {
     "after conditions with *args, **kwargs and keyword-only parameters were added",
     "C20_r6_set_truncated_before_ordering": "missed at first (sets never exceeded the limit of 50 items); caught after sets of 49..120 "
     "strings were added to the arguments",
+    "C02_r7_constructor_exemption_became_substring_test": "missed at first (member names were m1, m2, ...); caught after hierarchies "
+    "use short names that are part of '__init____new__'",
+    "C03_r7_mark_kept_when_constructor_body_raises": "missed at first (no constructor body raising followed by work on the same id); caught "
+    "after the failed-construction scenario (the same object initialised again, fresh objects afterwards)",
+    "C04_r7_reuse_recognised_by_nearest_definition_only": "missed at first (members were only re-used from the direct base); caught after the "
+    "scenario in which a sub-class re-binds the grand-parent's function although its parent overrides it",
+    "C05_r7_async_post_error_gets_condition_subset": "missed at first (postcondition and error factory took the same names); caught after the "
+    "postcondition takes every second name only",
+    "C06_r7_comprehension_parts_recomputed_in_enclosing_scope": "missed at first - by an oracle mistake: the fallback for comprehension parts "
+    "evaluated their text in the outer scope and agreed with the wrong value; caught after the twin records the values of every iteration and "
+    "the grammar displays calls of loop variables named like arguments / globals",
+    "C07_r7_walrus_does_not_rebind_existing_name": "missed at first (walrus targets were fresh names); caught after the grammar re-binds a module "
+    "global with :=",
+    "C08_r7_property_base_snapshots_leak_between_accessors": "missed at first (the getter next to the accessor under test had no contracts); "
+    "caught after it may carry a postcondition and a snapshot of its own",
+    "C10_r7_new_wrapper_nested_test_ignores_owner": "missed at first by C10 (C03 caught the same change as an own mutant); caught after C10 "
+    "constructs another object of the class inside __new__",
+    "C12_r7_method_wrappers_write_stale_set_back": "missed at first (every task had a context of its own); caught after the scenario with two "
+    "tasks sharing one context",
+    "C14_r7_find_self_prefers_keyword_named_self": "missed at first (no keyword named self); caught after the class twin whose methods collect "
+    "self=... in **kwargs",
+    "C15_r7_documentation_asserts_in_slice_recomputation": "missed at first (slices had int bounds); caught after the cross-mode scenario with "
+    "__index__ objects as slice bounds",
+    "C17_r7_accept_all_list_shared_by_all_overrides": "missed at first (the needed history is rare at random); caught after the fixed histories "
+    "that add a precondition afterwards to one of several overrides of accept-all members",
 }
 
 
